@@ -401,6 +401,9 @@ func sinkNames(ss []sink) string {
 func runC09(c *Ctx) {
 	p := c.P
 	checkWrapperNotTakenForPacket(c, "R7")
+	checkStandaloneParsesFlagsFirst(c, "R8")
+	// R9 (shared with C02.R11): the refusal of a modifying request is addressed by the packet's id()
+	checkIDMethods(c, "R9")
 	checkOpenfilePassthrough(c, "R2")
 	pos := func(in ssa.Instruction) string { return p.Pos(in.Pos()) }
 	handle := p.Func("handlePacket")
@@ -1253,4 +1256,76 @@ func extendedArmLeaves(p *Program, worker *ssa.Function) []retLeaf {
 		}
 	}
 	return out
+}
+
+// checkStandaloneParsesFlagsFirst (C09.R8): the stand-alone server (server_standalone, what `Subsystem sftp` runs) is
+// read-only when started with -R.  In its main every read of a variable bound to a flag lies behind flag.Parse, and
+// ReadOnly() is added under the test of such a variable: with the test in front of Parse the flag's default is read,
+// `sftp-server -R` serves read-write, and every property of the read-only server is void for that process.
+func checkStandaloneParsesFlagsFirst(c *Ctx, rule string) {
+	p := c.P
+	var pkg *ssa.Package
+	for _, sp := range p.SSA.AllPackages() {
+		if sp.Pkg.Path() == pkgSftp+"/server_standalone" {
+			pkg = sp
+		}
+	}
+	if pkg == nil {
+		c.missing(rule, "server_standalone")
+		return
+	}
+	mainFn := pkg.Func("main")
+	if mainFn == nil || mainFn.Blocks == nil {
+		c.missing(rule, "server_standalone.main")
+		return
+	}
+	var parses []ssa.Instruction
+	bound := map[ssa.Value]bool{}
+	eachInstrDeep(mainFn, func(_ *ssa.Function, in ssa.Instruction) {
+		cc := callOf(in)
+		if cc == nil || cc.StaticCallee() == nil || cc.StaticCallee().Pkg == nil || cc.StaticCallee().Pkg.Pkg.Path() != "flag" {
+			return
+		}
+		name := cc.StaticCallee().Name()
+		if name == "Parse" {
+			parses = append(parses, in)
+		}
+		if strings.HasSuffix(name, "Var") && len(cc.Args) > 0 {
+			bound[cc.Args[0]] = true
+		}
+	})
+	c.check(len(parses) >= 1 && len(bound) >= 1, rule, "the stand-alone server has flags and parses them", p.Pos(mainFn.Pos()), fmt.Sprintf("%d variables bound, %d calls of flag.Parse", len(bound), len(parses)), "server_standalone.main no longer binds flags or never calls flag.Parse: -R has no effect")
+	gated := false
+	eachInstr(mainFn, func(in ssa.Instruction) {
+		u, ok := in.(*ssa.UnOp)
+		if !ok || u.Op != token.MUL || !bound[u.X] {
+			return
+		}
+		after := false
+		for _, ps := range parses {
+			if dominates(ps, in) {
+				after = true
+			}
+		}
+		c.check(after, rule, "flag variable read after flag.Parse", p.Pos(in.Pos()), "flag.Parse() dominates the read", "a flag variable is read before flag.Parse has run: the default is what is read, whatever the command line says (sftp-server -R serves read-write)")
+		// the read-only option hangs on such a read
+		for _, r := range *u.Referrers() {
+			iff, ok := r.(*ssa.If)
+			if !ok {
+				continue
+			}
+			t := iff.Block().Succs[0]
+			for _, b := range mainFn.Blocks {
+				if b != t && !t.Dominates(b) {
+					continue
+				}
+				for _, x := range b.Instrs {
+					if cc := callOf(x); cc != nil && cc.StaticCallee() != nil && fnName(cc.StaticCallee()) == "ReadOnly" {
+						gated = true
+					}
+				}
+			}
+		}
+	})
+	c.check(gated, rule, "-R adds the ReadOnly option", p.Pos(mainFn.Pos()), "sftp.ReadOnly() under the test of a flag variable", "no flag of the stand-alone server adds the ReadOnly option")
 }
